@@ -337,6 +337,7 @@ class Registry:
                                 c2.props, c2.label, c2.inline, c2.abstract, c2.bounded = c.props, c.label, c.inline, c.abstract, c.bounded
                                 c2.for_class = cls.name
                                 c2.for_class_obj = cls
+                                c2.for_class_star = True
                                 key = (rel, qual, cls.module.relpath + ':' + cls.name, c.label)
                                 self.contracts[key] = c2
                             continue
@@ -515,6 +516,12 @@ class Registry:
         c = self.contracts.get((rel, qual, None, label))
         if c is not None:
             return c
+        # a contract written once for every concrete class (for_class="*"): the same clauses apply to a receiver that
+        # reaches this very definition through super() from an overriding class
+        for (rel_, qual_, cls_, label_), c in self.contracts.items():
+            if rel_ == rel and qual_ == qual and label_ == label and cls_ is not None and not c.abstract \
+                    and getattr(c, 'for_class_star', False):
+                return c
         # abstract contract declared for (a base of) the receiver's class, even where that class only inherits the method
         if self_cls is not None and isinstance(self_cls, ClassInfo):
             for k in self.prog.mro(self_cls):
